@@ -62,6 +62,20 @@ def _slice_of_len(v):
     return None
 
 
+def emptiness(tests, s, consts):
+    """True: the tests establish that slice value s is empty; False: that it is not; None: neither."""
+    for tst in tests:
+        v = tst[3]
+        if v[0] == "call" and pa.short(v[1]) == "is_empty" and v[2] and v[2][0] == s:
+            return tst[2] == "true"
+    lo, hi, _ = expr.interval([(t[3], t[2]) for t in tests], lambda v: _is_len_of(v, s), consts)
+    if lo >= 1:
+        return False
+    if hi == 0:
+        return True
+    return None
+
+
 def _lower_bound(tests, is_var, consts):
     lo, hi, _ = expr.interval([(t[3], t[2]) for t in tests], is_var, consts)
     return lo
